@@ -63,6 +63,18 @@ namespace sqf::fileio
         void add_pbo_mapping(std::filesystem::path p);
         virtual std::optional<sqf::runtime::fileio::pathinfo> get_info(std::string_view view, sqf::runtime::fileio::pathinfo current) const override
         {
+            // A relative request made from within a file that has no virtual path (eg. a file given
+            // on the command line) is taken against that file first, not against the virtual root.
+            auto first = view.find_first_not_of(" \t");
+            if (first != std::string_view::npos && view[first] != '/' && view[first] != '\\'
+                && current.virtual_.empty() && !current.physical.empty())
+            {
+                auto relative = get_info_physical(view, current);
+                if (relative.has_value())
+                {
+                    return relative;
+                }
+            }
             auto res =  get_info_virtual(view, current);
             if (!res.has_value())
             {
